@@ -44,7 +44,10 @@ def run(ctx):
 
     graphs = []
     # ---------------- PAR2: 2 files (thorough: also 3), 2 recovery files ----------------
-    p2 = [P.PSet({"a.dat": L.gen_content(rng, "random", 9), "b.dat": L.gen_content(rng, "random", 6)}, 4, 3, g=1)]
+    # a.dat's first two slices have the same content (one checksum pair registered at two positions): idempotence must
+    # hold for such sets too
+    dup_ = L.gen_content(rng, "random", 4)
+    p2 = [P.PSet({"a.dat": dup_ + dup_ + L.gen_content(rng, "random", 1), "b.dat": L.gen_content(rng, "random", 6)}, 4, 3, g=1)]
     if thorough:
         p2.append(P.PSet({"a": L.gen_content(rng, "random", 5), "b": L.gen_content(rng, "random", 8), "c": L.gen_content(rng, "lowent", 4)}, 4, 2, g=1))
     for ps in p2:
